@@ -10,6 +10,7 @@
 package main
 
 import (
+	"reflect"
 	"bytes"
 	"encoding/json"
 	"flag"
@@ -1256,6 +1257,70 @@ func (r *rewriter) probe(a accInfo, write bool) ast.Stmt {
 	return &ast.ExprStmt{X: call(vrtSel("Acc"), r.site(a.pos), &ast.UnaryExpr{Op: token.AND, X: &ast.ParenExpr{X: a.expr}}, desc, w)}
 }
 
+// wrapRead replaces the read access a inside root by an expression that records the access when it is
+// evaluated: x.f -> *vrt.AccR(site, &x.f, desc); m (of m[k], len(m)) -> vrt.AccMapR(site, m, desc).
+func (r *rewriter) wrapRead(root ast.Node, a accInfo) bool {
+	desc := &ast.BasicLit{Kind: token.STRING, Value: strconv.Quote(a.desc)}
+	var repl ast.Expr
+	if a.isMap {
+		repl = call(vrtSel("AccMapR"), r.site(a.pos), a.expr, desc)
+	} else {
+		repl = &ast.ParenExpr{X: &ast.StarExpr{X: call(vrtSel("AccR"), r.site(a.pos), &ast.UnaryExpr{Op: token.AND, X: &ast.ParenExpr{X: a.expr}}, desc)}}
+	}
+	return replaceExpr(reflect.ValueOf(root), a.expr, repl, 0)
+}
+
+var exprType = reflect.TypeOf((*ast.Expr)(nil)).Elem()
+
+// replaceExpr finds the field (or slice element) of the syntax tree under v that holds old and stores
+// repl there. The replacement's own operand (which contains old) is not descended into.
+func replaceExpr(v reflect.Value, old, repl ast.Expr, depth int) bool {
+	if depth > 200 || !v.IsValid() {
+		return false
+	}
+	switch v.Kind() {
+	case reflect.Interface, reflect.Ptr:
+		if v.IsNil() {
+			return false
+		}
+		if v.Kind() == reflect.Ptr && v.Elem().Kind() != reflect.Struct {
+			return false
+		}
+		if _, isObj := v.Interface().(*ast.Object); isObj {
+			return false
+		}
+		return replaceExpr(v.Elem(), old, repl, depth+1)
+	case reflect.Struct:
+		for i := 0; i < v.NumField(); i++ {
+			f := v.Field(i)
+			if !f.CanSet() {
+				continue
+			}
+			if f.Type() == exprType && !f.IsNil() {
+				if f.Interface().(ast.Expr) == old {
+					f.Set(reflect.ValueOf(repl))
+					return true
+				}
+			}
+			if replaceExpr(f, old, repl, depth+1) {
+				return true
+			}
+		}
+	case reflect.Slice:
+		for i := 0; i < v.Len(); i++ {
+			e := v.Index(i)
+			if e.Type() == exprType && !e.IsNil() && e.Interface().(ast.Expr) == old {
+				e.Set(reflect.ValueOf(repl))
+				return true
+			}
+			if replaceExpr(e, old, repl, depth+1) {
+				return true
+			}
+		}
+	}
+	return false
+}
+
 // firstCallPos returns the position of the first real call / channel operation in the expressions.
 func (r *rewriter) firstCallPos(exprs ...ast.Expr) token.Pos {
 	first := token.NoPos
@@ -1358,6 +1423,17 @@ func (r *rewriter) probesFor(s ast.Stmt) (pre, post []ast.Stmt) {
 	case *ast.RangeStmt:
 		reads = append(reads, r.accessesIn(x.X)...)
 		exprs = append(exprs, x.X)
+	case *ast.ForStmt:
+		// the condition is evaluated before every iteration: its reads are probed where they are evaluated
+		if x.Cond != nil {
+			for _, a := range r.accessesIn(x.Cond) {
+				if r.wrapRead(x, a) {
+					r.bump("probe-in-expression")
+				} else {
+					r.bump("unprobed-loop-condition-read")
+				}
+			}
+		}
 	case *ast.DeferStmt:
 		for _, a := range x.Call.Args {
 			reads = append(reads, r.accessesIn(a)...)
@@ -1382,7 +1458,13 @@ func (r *rewriter) probesFor(s ast.Stmt) (pre, post []ast.Stmt) {
 	seen := map[string]bool{}
 	for _, a := range reads {
 		if first != token.NoPos && a.pos > first {
-			r.bump("unprobed-read-after-call")
+			// evaluated after a call of the same statement: a probe before the statement would be too
+			// early, so the read itself is routed through a helper that is the probe
+			if r.wrapRead(s, a) {
+				r.bump("probe-in-expression")
+			} else {
+				r.bump("unprobed-read-after-call")
+			}
 			continue
 		}
 		k := fmt.Sprintf("r%s%d", a.desc, a.pos)
